@@ -38,8 +38,11 @@ constexpr auto round_check(T const x) noexcept -> T
             !is_finite(x) ? x
                           :
                           // signed-zero cases
-            etl::numeric_limits<T>::epsilon() > abs(x) ? x
-                                                       :
+            x == T(0) ? x
+                      :
+                      // already integral (and need not fit llint_t)
+            abs(x) >= T(1) / etl::numeric_limits<T>::epsilon() ? x
+                                                               :
                                                        // else
             sgn(x) * round_int(abs(x))
     );
